@@ -954,12 +954,20 @@ func constructDateFromTmp(tmp tmpDate) Date {
 		if tmp.flags.HasFlag(dateHasWeekdayFromMonday) {
 			currentDay := result.WeekdayFromMonday()
 			diff := tmp.weekdayFromMonday - currentDay
+			if tmp.flags.HasFlag(dateHasWeekFromSunday) {
+				// the week (%U) starts on Sunday: Sunday is its first day, not its last
+				diff = tmp.weekdayFromMonday%7 - result.WeekdayFromSunday()
+			}
 			datetime := result.ToDateTimeValue()
 			result = datetime.AddTimeSpan(TimeSpan(diff) * Day).Date()
 		}
 		if tmp.flags.HasFlag(dateHasWeekdayFromSunday) {
 			currentDay := result.WeekdayFromSunday()
 			diff := tmp.weekdayFromSunday - currentDay
+			if !tmp.flags.HasFlag(dateHasWeekFromSunday) {
+				// the week (%W, %V) starts on Monday: Sunday is its last day, not its first
+				diff = (tmp.weekdayFromSunday+6)%7 - (currentDay+6)%7
+			}
 			datetime := result.ToDateTimeValue()
 			result = datetime.AddTimeSpan(TimeSpan(diff) * Day).Date()
 		}
